@@ -373,11 +373,4 @@ theorem removeOnlyL_carried : ∀ (ocs : List Sk) (i : Nat) (hi : i < ocs.length
   | o :: os, i+1, hi, n => by simpa using removeOnlyL_carried os i (by simpa using hi) n
 end
 
-/-! ### the boundary -/
-
-/-- decidable superset of the pairs on which the survivor clause can fail for the pinned algorithm: the edit is
-"only additions" (`embeds o n`) but the pair is outside `addOnly`, or "only removals" and outside `removeOnly`. -/
-def survivorsMayFail (o n : Sk) : Bool :=
-  (embeds o n && !addOnly o n) || (embeds n o && !removeOnly o n)
-
 end Mimium.StateTree
